@@ -124,6 +124,14 @@ func synText(n int) string {
 
 func init() {
 	synthetic["syn-large.txt"] = synText(9000)
+	// byte-level oddities at the edges and inside a text (files padded to a block size, control
+	// characters, non-ASCII blanks, CRLF): names sort behind the others (tuples take the first three)
+	body := "Redistribution and use of this software in source and binary forms are permitted provided that the following conditions of the license are met and the copyright notice is retained"
+	synthetic["syn-z-nul-tail.txt"] = body + "\n" + strings.Repeat("\x00", 37)
+	synthetic["syn-z-nul-head.txt"] = strings.Repeat("\x00", 5) + body
+	synthetic["syn-z-ctrl.txt"] = "\ufeff" + strings.Replace(body, " and ", " \x01and\x7f \f\v", 2) + "\x1a"
+	synthetic["syn-z-blank-tail.txt"] = body + "\u00a0\u2028\u3000 \t"
+	synthetic["syn-z-crlf.txt"] = strings.ReplaceAll(strings.ReplaceAll(body, " that ", "\r\nthat "), " are ", "\r\nare ") + "\r\n"
 	// many small licenses (more than any batch or table size one would pick for 178 files)
 	for i := 0; i < 520; i++ {
 		w := fmt.Sprintf("m%c%c%c", 'a'+i%26, 'a'+(i/26)%26, 'a'+i/676)
@@ -228,7 +236,7 @@ func c15Archive(c *vrep.Ctx) {
 			}
 		}
 	}
-	c.R.Rule = fmt.Sprintf("archive round trip, mode %s: %d file sets (every shipped license alone / all ordered pairs (and triples) of an 8-file pool incl. .header files / synthetic files served through ReadLicenseFile: empty, one word, punctuation only, END OF TERMS trailer, duplicate text, a 9 000-word text larger than any shipped license); ArchiveLicenses -> New(ArchiveBytes): loads without error, contains exactly the file names minus .txt, and the archive-loaded string classifier answers NearestMatch and MultipleMatch on a query menu (each member, edited member, concatenation, unrelated text) exactly like a classifier built with AddValue from the same normalised texts; non-trivial = distinct (file set, query) comparisons", mode, len(sets))
+	c.R.Rule = fmt.Sprintf("archive round trip, mode %s: %d file sets (every shipped license alone / all ordered pairs (and triples) of an 8-file pool incl. .header files / synthetic files served through ReadLicenseFile: empty, one word, punctuation only, END OF TERMS trailer, duplicate text, a 9 000-word text larger than any shipped license, texts with NUL padding at either end, control characters, non-ASCII blanks at the end, CRLF); ArchiveLicenses -> New(ArchiveBytes): loads without error, contains exactly the file names minus .txt, and the archive-loaded string classifier answers NearestMatch and MultipleMatch on a query menu (each member, edited member, concatenation, unrelated text) exactly like a classifier built with AddValue from the same normalised texts; non-trivial = distinct (file set, query) comparisons", mode, len(sets))
 	c.Bound("file_sets", len(sets))
 	body := func(r *vx.Run) {
 		si := r.Choose(len(sets), "set")
